@@ -1,4 +1,8 @@
 import Mathlib.Analysis.Complex.Norm
+import Mathlib.LinearAlgebra.Matrix.ConjTranspose
+import Mathlib.Tactic.FinCases
+import Mathlib.Tactic.IntervalCases
+import Mathlib.Algebra.BigOperators.Fin
 import Mathlib.Algebra.Order.Ring.Rat
 import Mathlib.Tactic.Linarith
 import Mathlib.Tactic.Positivity
@@ -166,5 +170,24 @@ noncomputable def Molecular.den [Algebra ℂ R] (H : Molecular) (C : CAR R H.nor
     C.termDen molPatternV (coef4 fun i j k l => (H.coeffV i j k l).toC)
 
 end den
+
+/-! ### a concrete representation of the CAR (non-vacuity witness) -/
+
+/-- Jordan-Wigner annihilators on two modes in the convention of `FieldOperator.as_matrix`
+(`a†_0 = U ⊗ Z`, `a†_1 = 1 ⊗ U`, `U = |1⟩⟨0|`) -/
+def jwA0 : Matrix (Fin 4) (Fin 4) ℂ := fun r c => if r = 0 ∧ c = 2 then 1 else if r = 1 ∧ c = 3 then -1 else 0
+def jwA1 : Matrix (Fin 4) (Fin 4) ℂ := fun r c => if r = 0 ∧ c = 1 then 1 else if r = 2 ∧ c = 3 then 1 else 0
+
+def jwCAR2 : CAR (Matrix (Fin 4) (Fin 4) ℂ) 2 where
+  a := fun i => if i = 0 then jwA0 else jwA1
+  anti := by
+    intro i j hi hj
+    interval_cases i <;> interval_cases j <;>
+      (ext r c; fin_cases r <;> fin_cases c <;> simp [jwA0, jwA1, Matrix.mul_apply])
+  antiStar := by
+    intro i j hi hj
+    interval_cases i <;> interval_cases j <;>
+      (ext r c; fin_cases r <;> fin_cases c <;>
+        simp [jwA0, jwA1, Matrix.mul_apply, Matrix.star_eq_conjTranspose, Matrix.conjTranspose_apply])
 
 end Qib.Ham
